@@ -88,6 +88,9 @@ deriving Repr, DecidableEq
 structure Opts where
   maxMsg : Nat      -- DecodingOptions::max_message_size (0 = no limit)
   maxStr : Nat      -- DecodingOptions::max_string_length
+  /-- `true`: the source after the C10 `fix:` commit (a frame declaring more than `maxMsg` bytes is
+  rejected as soon as its header is seen); `false`: the pinned source (waits for all the bytes). -/
+  early : Bool := true
 deriving Repr, DecidableEq
 
 /-- `UAString::decode`: outer `none` = decoding error, inner `none` = null string. -/
@@ -177,7 +180,8 @@ def decodeStep (o : Opts) (b : Bytes) : Step :=
     | t0 :: t1 :: t2 :: t3 :: r =>
       match readU32 r with
       | some (size, _) =>
-        if b.length ≥ size then
+        if o.early = true ∧ o.maxMsg > 0 ∧ size > o.maxMsg then .error   -- BadTcpMessageTooLarge
+        else if b.length ≥ size then
           match parse o (mtype t0 t1 t2 t3) (b.take size) with
           | some f => .frame f (b.drop size)
           | none => .error
